@@ -11,6 +11,7 @@ import ast
 
 from ..flow import FlowAnalysis, has_event, may_event
 from ..hooks import is_framework
+from ..derive import ElemSources, expand_predicate
 from ..model import AnalysisError, FuncInfo, call_name, last_attr, names_in, unparse, walk_no_nested
 from ..templates import HOLE, emits_in, eval_templates_c, free_roots, import_events
 
@@ -232,15 +233,29 @@ def rule_import_removal_owner(ctx, rep):
     if m is not None:
         orig = m.positional_params()[1] if len(m.positional_params()) > 1 else "original_node"
         why = "no filter of original_node.names by membership of (alias, original_node) in self.unused_imports"
-        for comp in walk_no_nested(m.node):
-            if isinstance(comp, ast.ListComp) and unparse(comp.generators[0].iter) == f"{orig}.names" and isinstance(comp.generators[0].target, ast.Name):
-                var = comp.generators[0].target.id
-                for cond in comp.generators[0].ifs:
-                    if (
-                        isinstance(cond, ast.Compare) and isinstance(cond.ops[0], ast.NotIn) and isinstance(cond.left, ast.Tuple)
-                        and [unparse(e) for e in cond.left.elts] == [var, orig] and unparse(cond.comparators[0]) == "self.unused_imports"
-                    ):
-                        ok = True
+        es = ElemSources(ctx, m, order_matters=True)
+        cands = [x for x in walk_no_nested(m.node) if isinstance(x, (ast.ListComp, ast.GeneratorExp))]
+        cands += [ast.Name(id=t.id, ctx=ast.Load()) for a in walk_no_nested(m.node) if isinstance(a, (ast.Assign, ast.AnnAssign))
+                  for t in (a.targets if isinstance(a, ast.Assign) else [a.target]) if isinstance(t, ast.Name)]
+        filtered = 0
+        for cand in cands:
+            for leaf, facts in es.sources(cand):
+                if leaf is None or unparse(leaf) != f"{orig}.names" or not facts:
+                    continue
+                filtered += 1
+                good = False
+                for pol, txt in facts:
+                    cond = expand_predicate(ctx, m, ast.parse(txt.replace("$E", "__E"), mode="eval").body)
+                    while isinstance(cond, ast.UnaryOp) and isinstance(cond.op, ast.Not):
+                        pol, cond = not pol, cond.operand
+                    if (isinstance(cond, ast.Compare) and len(cond.ops) == 1 and isinstance(cond.left, ast.Tuple)
+                            and [unparse(e) for e in cond.left.elts] == ["__E", orig] and unparse(cond.comparators[0]) == "self.unused_imports"
+                            and ((isinstance(cond.ops[0], ast.NotIn) and pol) or (isinstance(cond.ops[0], ast.In) and not pol))):
+                        good = True
+                if not good:
+                    why = f"aliases of {orig}.names are kept under {sorted(t for _, t in facts)}, not by membership of (alias, {orig}) in self.unused_imports"
+                    filtered = -100
+        ok = filtered > 0
     rep.check("R-IMPORT-REMOVAL-OWNER", ru.qname, (m or ru).loc(), ok, "identity-of-gathered-pairs",
               f"{why}: deciding by name/module instead of by the gathered node pairs removes a *used* import that merely looks like an unused one "
               "(e.g. module-level `import json` used, function-level `import json` unused)")
